@@ -111,8 +111,10 @@ func (e *Exec) antlrObject(t types.Type, depth int) *Term {
 		}
 		if p, ok := f.Type().Underlying().(*types.Pointer); ok {
 			inner := e.antlrObject(p.Elem(), depth+1)
-			comp := e.curState.Get(fieldComp(t, i), ArraySort(SInt, sortOf(f.Type())))
-			e.assume(Implies(e.guard(), Eq(Select(comp, r), inner)))
+			name := fieldComp(t, i)
+			comp := e.curState.Get(name, ArraySort(SInt, sortOf(f.Type())))
+			// a store, not an assumption about the current heap: the cell of a fresh object is nil in the current heap
+			e.curState.Set(name, Ite(e.guard(), Store(comp, r, inner), comp))
 		}
 	}
 	return r
@@ -152,7 +154,11 @@ func (e *Exec) builtin(f *ssa.Builtin, c *ssa.CallCommon, args []Val) Val {
 		case *types.Slice:
 			return SLen(e.toTerm(args[0], t))
 		case *types.Basic:
-			return mk("str.len", SInt, e.toTerm(args[0], t))
+			str := e.toTerm(args[0], t)
+			if byteLen && str.Sort == SString {
+				return ByteLen(str)
+			}
+			return mk("str.len", SInt, str)
 		case *types.Map:
 			m := e.toTerm(args[0], t)
 			k, v := mapSorts(t)
@@ -409,6 +415,10 @@ func (e *Exec) inlineCall(f *ssa.Function, bindings []Val, args []Val) Val {
 	}
 	sub.reachBase = e.guard()
 	sub.curReach = True
+	if c := e.P.ContractOf(f); c != nil && c.Flags["byte_len"] && !byteLen {
+		byteLen = true
+		defer func() { byteLen = false }()
+	}
 	sub.execBody()
 	sub.finish()
 	e.root().Inlined[fullName(f)] = true
@@ -446,6 +456,14 @@ func (e *Exec) contractCall(f *ssa.Function, ct *FuncContract, c *ssa.CallCommon
 	}
 	var ret Val
 	if ct.Flags["pure"] {
+		// "pure" = writes nothing that existed; it may still return newly allocated objects (a fresh slice), so the
+		// allocation counter advances when a result can hold a reference (otherwise `fresh(result)` in its ensures
+		// contradicts "every reference is below the counter")
+		if resultsHoldRefs(f.Signature.Results()) {
+			nn := Fresh("next$"+f.Name(), SInt)
+			e.assume(Implies(e.guard(), Ge(nn, e.curState.next)))
+			e.curState.next = nn
+		}
 		ret = e.freshResults(f.Signature.Results(), f.Name())
 	} else {
 		ret = e.havocByModset(e.P.FuncModset(f), f.Signature.Results(), f.Name())
@@ -467,7 +485,19 @@ func (e *Exec) contractCall(f *ssa.Function, ct *FuncContract, c *ssa.CallCommon
 	if ct.Flags["trusted"] {
 		e.root().Assumed["trusted contract of "+FuncKey(f)] = true
 	}
+	e.probe("after-call:" + ct.Name)
 	return ret
+}
+
+func resultsHoldRefs(res *types.Tuple) bool {
+	for i := 0; i < res.Len(); i++ {
+		switch res.At(i).Type().Underlying().(type) {
+		case *types.Basic:
+		default:
+			return true
+		}
+	}
+	return false
 }
 
 func unionProps(a, b []string) []string {
